@@ -110,7 +110,7 @@ pub fn groups(tier: &FTier) -> Vec<InstSpec> {
     for kind in KINDS {
         for problem in PROBLEMS {
             let plist: Vec<Params> = if problem.overflows() {
-                params.iter().take(8).copied().chain(wide.iter().copied()).collect()
+                [0usize, 4, 6, 7].iter().map(|i| params[*i]).chain(wide.iter().copied()).collect()
             } else if tier.thorough {
                 params.iter().copied().chain(wide.iter().copied()).collect()
             } else {
@@ -351,7 +351,7 @@ pub fn run_group(seed: u64, gi: u64, base: &InstSpec, tier: &FTier, st: &mut Sta
     let rr = execute(&ref_spec, &[ref_budget], &opts_ref);
     st.account_run((MODE_FGRID, gi, 0), &ref_spec, &rr.insts, rr.fp);
     if let Some(v) = rr.violation {
-        st.violations.push(FoundViolation { id: (MODE_FGRID, gi, 0), spec: ref_spec, budgets: vec![ref_budget], violation: v });
+        st.found(FoundViolation { id: (MODE_FGRID, gi, 0), spec: ref_spec, budgets: vec![ref_budget], violation: v });
         return out;
     }
     let r = &rr.insts[0];
@@ -451,7 +451,7 @@ pub fn run_group(seed: u64, gi: u64, base: &InstSpec, tier: &FTier, st: &mut Sta
                         }
                     }
                     if let Some(v) = res.violation {
-                        st.violations.push(FoundViolation { id: (MODE_FGRID, gi, sub), spec, budgets: vec![budget], violation: v });
+                        st.found(FoundViolation { id: (MODE_FGRID, gi, sub), spec, budgets: vec![budget], violation: v });
                         return out;
                     } else if !sample_taken && s.fired > 0 && gi % 97 == 5 && k > 2 {
                         sample_taken = true;
@@ -486,7 +486,7 @@ pub fn run_group(seed: u64, gi: u64, base: &InstSpec, tier: &FTier, st: &mut Sta
                 ));
             }
             if let Some(v) = res.violation {
-                st.violations.push(FoundViolation { id: (MODE_FGRID, gi, sub), spec, budgets: vec![budget], violation: v });
+                st.found(FoundViolation { id: (MODE_FGRID, gi, sub), spec, budgets: vec![budget], violation: v });
                 return out;
             }
         }
@@ -541,7 +541,7 @@ pub fn run_group(seed: u64, gi: u64, base: &InstSpec, tier: &FTier, st: &mut Sta
             }
         }
         if let Some(v) = res.violation {
-            st.violations.push(FoundViolation { id: (MODE_FGRID, gi, sub), spec, budgets: vec![budget], violation: v });
+            st.found(FoundViolation { id: (MODE_FGRID, gi, sub), spec, budgets: vec![budget], violation: v });
         }
     }
     out
